@@ -72,9 +72,25 @@ impl PendingPacket {
     }
 
     pub fn acknowledge_fragment(&mut self, fragment_id: u16) {
+        #[cfg(uflow_verif)]
+        let verif_flags_before = self.ack_flags.clone();
+
         let flag_bit = 1 << (fragment_id % 64) as u64;
         let flags_index = (fragment_id / 64) as usize;
         self.ack_flags[flags_index] |= flag_bit;
+
+        // Report every fragment which this call newly marked as acknowledged
+        #[cfg(uflow_verif)]
+        for (i, (before, after)) in verif_flags_before.iter().zip(self.ack_flags.iter()).enumerate() {
+            let mut new_bits = after & !before;
+            while new_bits != 0 {
+                let bit = new_bits.trailing_zeros() as usize;
+                crate::verif::trace::emit(crate::verif::trace::Event::FragmentAcked {
+                    sequence_id: self.sequence_id, fragment_id: (i*64 + bit) as u16
+                });
+                new_bits &= new_bits - 1;
+            }
+        }
     }
 
     pub fn size(&self) -> usize {
